@@ -37,10 +37,12 @@ package command
 //@ func (Command).Join
 //@   requires len(c) <= 4294967296 && len(segments) <= 1048576 && (forall j int :: 0 <= j && j < len(segments) ==> len(segments[j]) <= 4294967296)
 //@   ensures [C15] join: string(result) == joinSpec(string(c), elems(segments), off(segments), len(segments))
+//@   assigns [C20] nothing
 //@   loop 0: invariant 0 <= k && k <= len(segments) && 0 <= size && size <= k * 4294967296 && (size == 0 ==> joinSpec(string(c), elems(segments), off(segments), k) == string(c))
 //@   loop 1: invariant 0 <= k && k <= len(segments) && fresh(buf) && bytes(buf) == joinSpec(string(c), elems(segments), off(segments), k)
 //@
 //@ // Segments: none for "/", otherwise the pieces of the text between separators, without the (empty) piece before the leading one
 //@ func (Command).Segments
+//@   assigns [C20] nothing
 //@   ensures [C15] segments: string(c) == "/" ==> result == nil
 //@   ensures [C15] segments: string(c) != "/" ==> len(result) == splitCount(string(c), "/") - 1 && (forall i int :: {result[i]} 0 <= i && i < len(result) ==> result[i] == splitPiece(string(c), "/", i+1))
